@@ -14,6 +14,15 @@ package procbuilder
 //@   reads vm.DeferredInstructions, vm.DeferredInstructions[*]
 //@   frameonly
 
+//@ exclude T2r.Simulate: emulator opcode: sends a command on the VM's own CmdChan (channel operations are outside the verifiable subset)
+//@ exclude U2r.Simulate: emulator opcode: sends a command on the VM's own CmdChan (channel operations are outside the verifiable subset)
+//@ exclude K2r.Simulate: emulator opcode: sends a command on the VM's own CmdChan (channel operations are outside the verifiable subset)
+//@ exclude Q2r.Simulate: emulator opcode: sends a command on the VM's own CmdChan (channel operations are outside the verifiable subset)
+//@ exclude R2q.Simulate: emulator opcode: sends a command on the VM's own CmdChan (channel operations are outside the verifiable subset)
+//@ exclude R2t.Simulate: emulator opcode: sends a command on the VM's own CmdChan (channel operations are outside the verifiable subset)
+//@ exclude R2u.Simulate: emulator opcode: sends a command on the VM's own CmdChan (channel operations are outside the verifiable subset)
+//@ exclude R2v.Simulate: emulator opcode: sends a command on the VM's own CmdChan (channel operations are outside the verifiable subset)
+//@ exclude R2vri.Simulate: emulator opcode: sends a command on the VM's own CmdChan (channel operations are outside the verifiable subset)
 //@ interface Opcode method Simulate(vm *VM, instr string) error
 //@   requires vm != nil && vm.Mach != nil
 //@   assigns vm.*, vm.Registers[*], vm.Memory[*], vm.Inputs[*], vm.Outputs[*], vm.InputsValid[*], vm.OutputsValid[*],
